@@ -5,13 +5,32 @@ CLOSURE = ["Model/Net.v", "Model/Alloc.v", "Proofs/NetP.v"]
 COQ_FILES = ["Corr/Run_Alloc.v"]
 
 
+PROBE, NOPROBE = "zz_verif_alloc_probe_test.go", "zz_verif_alloc_noprobe_test.go"
+
+
+def go_alloc_harness(ctx, files, run, **kw):
+    """ctx.go_harness for internal/allocator.  The reservation probe (PROBE) is the only harness file that
+    names unexported identifiers (checkSharing, key); when exactly that file does not build against the tree
+    under test, the run is repeated with the stand-in NOPROBE: no white-box probes, everything else unchanged."""
+    nb = len(ctx.corr_broken)
+    recs, ok, log = ctx.go_harness("internal/allocator", list(files) + [PROBE], run, **kw)
+    if not ok and "[build failed]" in log and PROBE in log and not any(
+            f in log for f in files if f.endswith(".go")):
+        del ctx.corr_broken[nb:]
+        recs, ok, log = ctx.go_harness("internal/allocator", list(files) + [NOPROBE], run, **kw)
+        ctx.cov.setdefault("whitebox_skipped", [])
+        if "checkSharing" not in ctx.cov["whitebox_skipped"]:
+            ctx.cov["whitebox_skipped"].append("checkSharing")
+    return recs, ok, log
+
+
 def run_alloc(ctx, sigs, n_quick=100, n_thorough=2500):
     """runs the allocator harness + correspondence; returns (cases, stats, mism)"""
     n = n_quick if ctx.tier == "quick" else n_thorough
     state = {"stats": {}}
 
     def harness(n, seed, tag):
-        recs, ok, log = ctx.go_harness("internal/allocator", ["zz_verif_alloc_test.go"], "TestVerifAlloc$", n=n, seed=seed, tag=tag)
+        recs, ok, log = go_alloc_harness(ctx, ["zz_verif_alloc_test.go"], "TestVerifAlloc$", n=n, seed=seed, tag=tag)
         cases = [r for r in recs if r.get("t") == "case"]
         for r in recs:
             if r.get("t") == "fail" and (sigs is None or r.get("sig") in sigs):
